@@ -72,6 +72,7 @@ def gen(rng):
         elif kind == "no_files":
             wm["cfg"]["extensions"] = ["zzz"]
     knobs = {"threads": rng.randrange(1, 5), "config_arg": rng.choice(["rel", "abs"]), "cwd": rng.choice(["proj", "proj", "outside", "/"])}
+    knobs = scen.env_knobs(rng, knobs)
     if wm.get("knob_cfg"):
         knobs["config_name"] = wm.pop("knob_cfg")
     if rng.random() < 0.2:
